@@ -182,6 +182,12 @@ func suiteDiffReport(c *Ctx) error {
 			newSrc += common + fmt.Sprintf("func (b Box) Twice() int { return b.v*%d + 1 }\n\nfunc (b *Box) NewName(k int) int {\n\tt := 0\n\tfor i := 0; i < k; i++ {\n\t\tt += b.v ^ i\n\t}\n\treturn t\n}\n\nfunc (b *Box) Extra() string { return \"x\" }\n\n", k)
 			plan = append(plan, plannedFn{"(*Box).Get", "(*Box).Get", "kept"}, plannedFn{"(Box).Twice", "(Box).Twice", "edited"},
 				plannedFn{"(*Box).OldName", "(*Box).NewName", "renamed"}, plannedFn{"", "(*Box).Extra", "added"})
+			// a method that is renamed AND edited, and a function that is renamed while a parameter changes its
+			// type: the structural matcher refuses such pairs (receiver / parameter types of two loads are not
+			// identical), the report still has to account for both names - in one entry or in two
+			oldSrc += fmt.Sprintf("func (b *Box) Scale(k int) int {\n\tt := b.v\n\tfor i := 0; i < k; i++ {\n\t\tif i > %d {\n\t\t\tt += i * b.v\n\t\t}\n\t}\n\treturn t\n}\n\nfunc widen(x int32, n int) int {\n\tt := 0\n\tfor i := 0; i < n; i++ {\n\t\tt += int(x) + i\n\t}\n\treturn t\n}\n\n", k)
+			newSrc += fmt.Sprintf("func (b *Box) Rescale(k int) int {\n\tt := b.v\n\tfor i := 0; i < k; i++ {\n\t\tif i > %d {\n\t\t\tt += i*b.v + 1\n\t\t}\n\t}\n\treturn t\n}\n\nfunc widened(x int64, n int) int {\n\tt := 0\n\tfor i := 0; i < n; i++ {\n\t\tt += int(x) + i\n\t}\n\treturn t\n}\n\n", k)
+			plan = append(plan, plannedFn{"(*Box).Scale", "(*Box).Rescale", "renamed-and-edited"}, plannedFn{"widen", "widened", "renamed-and-edited"})
 		}
 		{
 			so, sn := zipperStressPairs(rr)
@@ -366,6 +372,26 @@ func suiteDiffReport(c *Ctx) error {
 		for name := range newShort {
 			if seenNew[name] != 1 {
 				viol("C09", "C09/new-function-not-exactly-once", fmt.Sprintf("new function %s appears in %d entries", name, seenNew[name]))
+			}
+		}
+		// every matched pair owns exactly one entry of the function list: under the common name when paired
+		// by name, as "old → new" with status renamed otherwise (that is where the new name is accounted for)
+		for _, m := range out.TopologyMatches {
+			want := m.OldFunction
+			if !m.MatchedByName {
+				want = m.OldFunction + " → " + m.NewFunction
+			}
+			n := 0
+			for _, f := range out.Functions {
+				if f.Function == want {
+					n++
+					if !m.MatchedByName && f.Status != models.StatusRenamed {
+						viol("C09", "C09/renamed-pair-not-reported-as-renamed", fmt.Sprintf("%s has status %s", want, f.Status))
+					}
+				}
+			}
+			if n != 1 {
+				viol("C09", "C09/matched-pair-without-its-entry", fmt.Sprintf("the pair %s / %s (by name: %v) has %d entries named %q in the function list", m.OldFunction, m.NewFunction, m.MatchedByName, n, want))
 			}
 		}
 		s := out.Summary
